@@ -33,7 +33,6 @@ import (
 	v1 "github.com/lindb/lindb/index/v1"
 	"github.com/lindb/lindb/internal/verifhook"
 	"github.com/lindb/lindb/kv"
-	"github.com/lindb/lindb/kv/version"
 	"github.com/lindb/lindb/metrics"
 	"github.com/lindb/lindb/models"
 	"github.com/lindb/lindb/pkg/encoding"
@@ -283,11 +282,14 @@ func (ii *invertedIndex) put(key, seriesID uint32) {
 }
 
 func (ii *invertedIndex) getSeriesIDs(key uint32) (*roaring.Bitmap, error) {
+	result := roaring.New()
+	// memory tables BEFORE taking the snapshot, see findSeriesIDsByKeys
+	ii.findSeriesIDsByKeyFromMem(key, result)
+
 	snapshot := ii.family.GetSnapshot()
 	verifhook.Yield("index.inverted.get.afterSnapshot")
 	defer snapshot.Close()
 
-	result := roaring.New()
 	seriesIDs := roaring.New()
 	if err := snapshot.Load(key, func(value []byte) error {
 		if _, err := bitmapUnmarshal(seriesIDs, value); err != nil {
@@ -299,7 +301,6 @@ func (ii *invertedIndex) getSeriesIDs(key uint32) (*roaring.Bitmap, error) {
 	}); err != nil {
 		return nil, err
 	}
-	ii.findSeriesIDsByKeyFromMem(key, result)
 	return result, nil
 }
 
@@ -466,10 +467,6 @@ func (fi *forwardIndex) findSeriesIDsForTag(tagKeyID tag.KeyID) (*roaring.Bitmap
 
 // GetGroupingContext returns the context of group by
 func (fi *forwardIndex) GetGroupingContext(ctx *flow.ShardExecuteContext) error {
-	snapshot := fi.family.GetSnapshot()
-	verifhook.Yield("index.forward.grouping.afterSnapshot")
-	defer snapshot.Close()
-
 	scannerMap := make(map[tag.KeyID][]flow.GroupingScanner)
 	tagKeyIDs := ctx.StorageExecuteCtx.GroupByTagKeyIDs
 	seriesIDs := ctx.SeriesIDsAfterFiltering
@@ -481,7 +478,7 @@ func (fi *forwardIndex) GetGroupingContext(ctx *flow.ShardExecuteContext) error 
 	}()
 	for _, tagKeyID := range tagKeyIDs {
 		// get grouping scanners by tag key
-		scanners, err := fi.getGroupingScanners(tagKeyID, seriesIDs, snapshot)
+		scanners, err := fi.getGroupingScanners(tagKeyID, seriesIDs)
 		if err != nil {
 			return err
 		}
@@ -505,7 +502,6 @@ func (fi *forwardIndex) GetGroupingContext(ctx *flow.ShardExecuteContext) error 
 func (fi *forwardIndex) getGroupingScanners(
 	tagKeyID tag.KeyID,
 	seriesIDs *roaring.Bitmap,
-	snapshot version.Snapshot,
 ) ([]flow.GroupingScanner, error) {
 	var result []flow.GroupingScanner
 	// read data from mem
@@ -518,6 +514,11 @@ func (fi *forwardIndex) getGroupingScanners(
 		}
 		result = append(result, &memGroupingScanner{forward: tagIndex, withLock: fi.withLock})
 	})
+
+	// take the snapshot AFTER the memory tables were read, see findSeriesIDsForTag
+	snapshot := fi.family.GetSnapshot()
+	verifhook.Yield("index.forward.grouping.afterSnapshot")
+	defer snapshot.Close()
 
 	// read data from kv store
 	// try to get tag key id from kv store
